@@ -10,10 +10,10 @@ func slOps(full bool) []string {
 	ops := []string{"commit", "flush", "commitp", "get A a", "set A a x", "set A ab x", "set A a y",
 		"del A a", "del A ab", "get A ab",
 		"snap", "rev 0", "rev 1", "fin", "reopen", "purge",
-		"bal A 5", "non A 3", "code A c1",
+		"bal A 5", "non A 3", "code A c1", "code A c2",
 		"add A a z", "add A b z", "set A a e", "set B a x"}
 	if full {
-		ops = append(ops, "set A b x", "set A ab y", "set A b y", "del A b", "get A b", "bal A 0", "code A c2",
+		ops = append(ops, "set A b x", "set A ab y", "set A b y", "del A b", "get A b", "bal A 0",
 			"add A ab z", "set A b e", "bal B 5", "set B ab y")
 	}
 	return ops
